@@ -34,7 +34,11 @@ RULE = ('seeded generator over the 9 methods of the test interface c14svc (strin
         'chunkings out of: whole, 1-byte reads, splits inside the length prefix, random cuts, cut at the frame end with a second '
         'frame behind it, 0-byte read after k bytes / script end; both socket classes; partial send() on the write side; '
         'sequences of 2-5 calls of varying encoded size (long->short for every ordered pair of methods, growing, equal, alternating, '
-        'mixed incl. rejected calls) through ONE ThriftSerializerSink + transport instance, each frame checked on its own. '
+        'mixed incl. rejected calls) through ONE ThriftSerializerSink + transport instance, each frame checked on its own; 2-4 OVERLAPPING '
+        'calls of different methods through one ThriftSerializerSink over a router with one connection per call (all written before '
+        'the first reply; replies fifo/lifo/shuffled/nested), each reply checked against what the Processor produced for that call; '
+        'sequences over TWO unrelated inherited services (SvcA extends BaseA, SvcB extends BaseB in harness/ifaces/c14inh) that declare '
+        'same-named methods with different signatures, used alternately in one process. '
         'non-trivial = the call reached the wire and a reply was read; distinct by canonical JSON of (case, observation)')
 TRUSTED = ['Thrift library 0.24 (TBinaryProtocol pure Python, fastbinary, TApplicationException) and the generated-style '
            'Processor/Client of harness/ifaces/c14svc (written by hand in the compiler\'s layout) as the server-side oracle',
@@ -70,29 +74,58 @@ MAX_COQ_BYTES = 3000
 # ---------------------------------------------------------------------------------------------
 # the interface table (read from the generated-style module; needs no scales import)
 # ---------------------------------------------------------------------------------------------
+IFACES = {               # name -> (package, service module, Coq table name)
+    'c14svc': ('harness.ifaces.c14svc', 'C14Svc', 'c14svc'),
+    'inhA': ('harness.ifaces.c14inh', 'SvcA', 'c14inhA'),      # SvcA extends BaseA
+    'inhB': ('harness.ifaces.c14inh', 'SvcB', 'c14inhB'),      # SvcB extends BaseB: same method names, other signatures
+}
+
+
+def _use(name=None):
+  """Selects the interface the spec-directed helpers below work on (default: c14svc)."""
+  import importlib
+  name = name or 'c14svc'
+  mods = _S.setdefault('mods', {})
+  if name not in mods:
+    pkg, mod, _tab = IFACES[name]
+    mods[name] = importlib.import_module(pkg + '.' + mod)
+  _S['cur'] = name
+  return mods[name]
+
+
 def _iface():
-  if 'svc' not in _S:
-    from harness.ifaces.c14svc import C14Svc, ttypes
-    _S['svc'] = C14Svc
-    _S['tt'] = ttypes
-    names = [m for m in C14Svc.Processor(None)._processMap]
-    _S['methods'] = names
-  return _S['svc']
+  if 'cur' not in _S:
+    _use()
+  return _S['mods'][_S['cur']]
+
+
+def _methods():
+  return list(_iface().Processor(None)._processMap)
+
+
+def _find(name):
+  """generated class by name in the module of the service or of any service it extends"""
+  import inspect
+  for c in inspect.getmro(_iface().Iface):
+    if c is not object:
+      x = getattr(sys.modules[c.__module__], name, None)
+      if x is not None:
+        return x
+  return None
 
 
 def _args_spec(method):
-  return getattr(_iface(), method + '_args').thrift_spec
+  return _find(method + '_args').thrift_spec
 
 
 def _result_cls(method):
-  return getattr(_iface(), method + '_result', None)
+  return _find(method + '_result')
 
 
 def _coq_service():
   """`service` term: method name -> result thrift_spec as (field id, wire type) / None slots."""
-  svc = _iface()
   items = []
-  for m in _S['methods']:
+  for m in _methods():
     rc = _result_cls(m)
     if rc is None:
       continue
@@ -101,8 +134,16 @@ def _coq_service():
   return C.lst(items)
 
 
-COQ_HEADER = ('From Scales Require Import Model.Base Model.Bytes Model.ThriftCodec.\n'
-              'Definition c14svc : ThriftCodec.service := %s.' % _coq_service())
+def _coq_header():
+  out = ['From Scales Require Import Model.Base Model.Bytes Model.ThriftCodec.']
+  for name in IFACES:
+    _use(name)
+    out.append('Definition %s : ThriftCodec.service := %s.' % (IFACES[name][2], _coq_service()))
+  _use()
+  return '\n'.join(out)
+
+
+COQ_HEADER = _coq_header()
 
 
 # ---------------------------------------------------------------------------------------------
@@ -272,10 +313,10 @@ def gen_chunkings(r, k, force=None):
   return out
 
 
-def gen_rpc(r, nchunk, method=None, behaviour=None, size=None):
+def gen_rpc(r, nchunk, method=None, behaviour=None, size=None, iface=None):
   """size: None (random mix), 'small' (no planted defects, short values), 'big' (long strings / blobs)."""
-  _iface()
-  method = method or r.choice(_S['methods'])
+  _use(iface)
+  method = method or r.choice(_methods())
   aspec = [e for e in _args_spec(method) if e is not None]
   flags = {}
   u = r.random()
@@ -323,7 +364,7 @@ def gen_rpc(r, nchunk, method=None, behaviour=None, size=None):
       handler = {'do': 'app', 'type': r.choice(list(range(0, 11)) + [99, -1]), 'message': r.choice([None, '', 'boom', rand_text(r)])}
     else:
       handler = {'do': 'other'}
-  case = {'kind': 'rpc', 'method': method, 'args': args, 'kwargs': kwargs, 'handler': handler,
+  case = {'kind': 'rpc', 'iface': iface or 'c14svc', 'method': method, 'args': args, 'kwargs': kwargs, 'handler': handler,
           'sock': r.choice(['varz', 'varz', 'scales']), 'send_cap': r.choice([None, None, 1, 7, 100]),
           'extra': r.choice(['none', 'none', 'frame', 'junk']), 'mangle': None, 'mseed': r.randrange(1 << 30),
           'ops': gen_chunkings(r, nchunk)}
@@ -336,8 +377,8 @@ SEQ_PATTERNS = ['long-short', 'long-short', 'growing', 'equal', 'mixed', 'mixed'
 
 def gen_seq(r, pattern=None, methods=None):
   """2-5 calls of varying encoded size through one sink chain instance and one connection."""
-  _iface()
-  twoway = [m for m in _S['methods'] if _result_cls(m) is not None]
+  _use()
+  twoway = [m for m in _methods() if _result_cls(m) is not None]
   pattern = pattern or r.choice(SEQ_PATTERNS)
   n = len(methods) if methods else r.choice([2, 2, 3, 4, 5])
   if pattern == 'long-short':
@@ -368,14 +409,76 @@ def gen_seq(r, pattern=None, methods=None):
   return {'kind': 'seq', 'pattern': pattern, 'sock': r.choice(['varz', 'varz', 'scales']), 'ops': ops}
 
 
+def _op_of(c, r, iface=None):
+  op = {k: c[k] for k in ('method', 'args', 'kwargs', 'handler', 'send_cap', 'mseed')}
+  op.update(extra='none', mangle=None, ch={'k': r.choice(SEQ_CHUNKS), 'seed': r.randrange(1 << 30)})
+  if iface:
+    op['iface'] = iface
+  return op
+
+
+def gen_overlap(r, methods=None, order=None):
+  """2-4 calls of (mostly) different methods in flight at the same time through ONE ThriftSerializerSink, each on its
+  own connection: all of them are serialized and written before the first reply is delivered (or, order='nested',
+  replies and further calls interleave)."""
+  _use()
+  twoway = [m for m in _methods() if _result_cls(m) is not None]
+  if not methods:
+    methods = r.sample(twoway, r.choice([2, 2, 3, 4]))
+    if r.random() < 0.15:
+      methods[-1] = methods[0]            # the same method twice is legitimate too
+  calls = []
+  for i, m in enumerate(methods):
+    c = gen_rpc(r, 1, method=m, size=r.choice(['small', 'small', 'big']))
+    op = _op_of(c, r)
+    op.update(op='call', id=i)
+    calls.append(op)
+  order = order or r.choice(['fifo', 'fifo', 'lifo', 'shuffle', 'nested'])
+  ids = list(range(len(calls)))
+  if order == 'nested' and len(calls) >= 3:
+    # call0 call1 reply1 call2 reply0 reply2 ...
+    ops = [calls[0], calls[1], {'op': 'reply', 'id': 1}]
+    for c in calls[2:]:
+      ops.append(c)
+    ops.append({'op': 'reply', 'id': 0})
+    ops += [{'op': 'reply', 'id': i} for i in ids[2:]]
+  else:
+    rep = list(ids)
+    if order == 'lifo':
+      rep.reverse()
+    elif order == 'shuffle':
+      r.shuffle(rep)
+    ops = calls + [{'op': 'reply', 'id': i} for i in rep]
+  return {'kind': 'overlap', 'order': order, 'sock': r.choice(['varz', 'varz', 'scales']), 'ops': ops}
+
+
+def gen_two_ifaces(r, method=None, first=None, n=None):
+  """Calls on two unrelated services that both use service inheritance and declare same-named methods with different
+  signatures (SvcA extends BaseA, SvcB extends BaseB), one after the other in one process.  Calls come in pairs
+  X.m, Y.m (same method name on the one service, then on the other), so every case exercises the name clash by
+  itself, also when replayed alone in a fresh process; the list is kept under 'calls' so that it is not shrunk."""
+  first = first or r.choice(['inhA', 'inhB'])
+  other = 'inhB' if first == 'inhA' else 'inhA'
+  n = n or r.choice([1, 1, 2, 3])
+  ops = []
+  for i in range(n):
+    m = method if (method and i == 0) else r.choice(['get', 'sum', 'name', 'ping'])
+    pair = [first, other] if (i == 0 or r.random() < 0.5) else [other, first]
+    for iface in pair:
+      c = gen_rpc(r, 1, method=m, size=r.choice(['small', 'small', None]), iface=iface)
+      ops.append(_op_of(c, r, iface))
+  _use()
+  return {'kind': 'seq', 'pattern': 'two-interfaces', 'sock': r.choice(['varz', 'scales']), 'calls': ops}
+
+
 def gen_cases(tier, seed):
-  _iface()
+  _use()
   n = 1300 if tier == 'quick' else 14000
   nseq = 220 if tier == 'quick' else 2500
   nchunk = 3 if tier == 'quick' else 5
   out = []
   # sequences through one sink instance: every ordered pair of two-way methods, long call first, short call second
-  twoway = [m for m in _S['methods'] if _result_cls(m) is not None]
+  twoway = [m for m in _methods() if _result_cls(m) is not None]
   k = 0
   for m1 in twoway:
     for m2 in twoway:
@@ -386,9 +489,31 @@ def gen_cases(tier, seed):
       out.append(gen_seq(r, pattern='long-short', methods=[m1, m2]))
   for j in range(nseq):
     out.append(gen_seq(C.case_rng(seed, PID + 'seq', j)))
+  # overlapping calls through one serializer sink: every ordered pair of different two-way methods, replies in call order
+  k = 0
+  for m1 in twoway:
+    for m2 in twoway:
+      if m1 != m2:
+        r = C.case_rng(seed, PID + 'ovpair', k)
+        k += 1
+        if tier == 'quick' and r.random() < 0.5:
+          continue
+        out.append(gen_overlap(r, methods=[m1, m2], order=r.choice(['fifo', 'lifo'])))
+  for j in range(120 if tier == 'quick' else 1500):
+    out.append(gen_overlap(C.case_rng(seed, PID + 'overlap', j)))
+  # two inherited services with same-named methods, used one after the other
+  k = 0
+  for m in ['get', 'sum', 'name', 'ping']:
+    for first in ['inhA', 'inhB']:
+      for rep in range(2 if tier == 'quick' else 6):
+        out.append(gen_two_ifaces(C.case_rng(seed, PID + 'two', k), method=m, first=first, n=1 + rep % 3))
+        k += 1
+  for j in range(60 if tier == 'quick' else 800):
+    out.append(gen_two_ifaces(C.case_rng(seed, PID + 'twor', j)))
+  _use()
   # deterministic grid: every method x every applicable handler behaviour x both sockets, all chunk kinds
   i = 0
-  for m in _S['methods']:
+  for m in _methods():
     for b in ['ret', 'retnone', 'declared', 'app', 'other']:
       for sock in ['varz', 'scales']:
         r = C.case_rng(seed, PID + 'grid', i)
@@ -428,13 +553,17 @@ def gen_cases(tier, seed):
 
 def search_cases(tier, seed, diverging):
   """Adversarial stream used only when proof/correspondence broke: void and exception replies on every method."""
-  _iface()
+  _use()
   out = []
   for i in range(3000):
     r = C.case_rng(seed + 104729, PID, i)
     out.append(gen_rpc(r, 2, behaviour=r.choice(['ret', 'retnone', 'declared', 'app'])))
   for i in range(1000):
     out.append(gen_seq(C.case_rng(seed + 104729, PID + 'seq', i)))
+  for i in range(500):
+    out.append(gen_overlap(C.case_rng(seed + 104729, PID + 'overlap', i)))
+    out.append(gen_two_ifaces(C.case_rng(seed + 104729, PID + 'two', i)))
+  _use()
   return out
 
 
@@ -445,12 +574,17 @@ class FakeSocket(object):
   """Stands in for gevent.socket.socket: send/sendall capture, recv/recv_into follow a script of sizes."""
   current = None        # the script of the transaction in progress (one connection, one script per transaction)
 
+  created = []          # every socket made so far (the newest one belongs to the transport opened last)
+
   def __init__(self, *a, **k):
     self.closed = False
+    self._script = None   # set: this connection follows its own script (overlapping calls on several connections)
+    FakeSocket.created.append(self)
+    del FakeSocket.created[:-8]
 
   @property
   def script(self):
-    return FakeSocket.current
+    return self._script or FakeSocket.current
 
   def connect(self, addr):
     pass
@@ -480,7 +614,8 @@ class FakeSocket(object):
 
 
 class Script(object):
-  def __init__(self, responder, send_cap):
+  def __init__(self, responder, send_cap, gate=None):
+    self.gate = gate                # an Event the peer waits for before it answers (None: answers at once)
     self.sent = []
     self.send_cap = send_cap
     self.responder = responder      # bytes written so far -> (stream, sizes)
@@ -493,6 +628,8 @@ class Script(object):
 
   def deliver(self, n):
     if self.stream is None:
+      if self.gate is not None:
+        self.gate.wait()
       self.stream, self.sizes = self.responder(b''.join(self.sent))
       self.queue = list(self.sizes)
     self.recvs += 1
@@ -533,7 +670,7 @@ def setup():
   from scales.loadbalancer.zookeeper import Endpoint
   ss.gsocket = FakeSocket
   ss.ScalesSocket._resolveAddr = lambda self: [(2, 1, 6, '', (self.host, self.port))]
-  _iface()
+  _use()
 
   class RawProvider(object):          # transport over a bare ScalesSocket (its own readAll/write loops)
     def CreateSink(self, properties):
@@ -555,7 +692,7 @@ class Handler(object):
     self.calls = []
 
   def __getattr__(self, name):
-    if name.startswith('_') or name not in _S['methods']:
+    if name.startswith('_') or name not in _methods():
       raise AttributeError(name)
 
     def method(*args):
@@ -721,13 +858,36 @@ def sizes_for(ch, total, frame_len):
 # ---------------------------------------------------------------------------------------------
 # implementation driver
 # ---------------------------------------------------------------------------------------------
-def _make_sink(sock_kind):
+def _sink_props():
   S = _S
-  ser = S['ThriftSerializerSink'].Builder()
-  ser.next_provider = S['SocketTransportSink'].Builder() if sock_kind == 'varz' else S['RawProvider']()
-  props = {S['SinkProperties'].ServiceInterface: _iface().Iface, S['SinkProperties'].Label: 'c14',
-           S['SinkProperties'].Endpoint: S['Endpoint']('c14host', 9)}
-  return ser.CreateSink(props)
+  return {S['SinkProperties'].ServiceInterface: _iface().Iface, S['SinkProperties'].Label: 'c14',
+          S['SinkProperties'].Endpoint: S['Endpoint']('c14host', 9)}
+
+
+def _transport_provider(sock_kind):
+  return _S['SocketTransportSink'].Builder() if sock_kind == 'varz' else _S['RawProvider']()
+
+
+def _make_sink(sock_kind):
+  ser = _S['ThriftSerializerSink'].Builder()
+  ser.next_provider = _transport_provider(sock_kind)
+  return ser.CreateSink(_sink_props())
+
+
+class Router(object):
+  """Stands in for a pool below the serializer sink: the k-th request goes out on the k-th connection."""
+
+  def __init__(self, transports):
+    self.transports = transports
+    self.n = 0
+
+  def AsyncProcessRequest(self, sink_stack, msg, stream, headers):
+    t = self.transports[self.n]
+    self.n += 1
+    t.AsyncProcessRequest(sink_stack, msg, stream, headers)
+
+  def CreateSink(self, properties):
+    return self
 
 
 def _describe_exc(method, e, faulted):
@@ -753,28 +913,54 @@ def _describe_exc(method, e, faulted):
 
 
 class Session(object):
-  """One sink chain instance (ThriftSerializerSink -> SocketTransportSink -> socket) over one connection."""
+  """One sink chain instance (ThriftSerializerSink -> SocketTransportSink -> socket).  With connections > 1 the
+  serializer sink sits on a Router over that many transports, each with its own connection, so that several calls
+  can be in flight through the one serializer sink at the same time."""
 
-  def __init__(self, sock_kind):
+  def __init__(self, sock_kind, iface=None, connections=1):
+    import gevent.event
+    self.iface = iface or 'c14svc'
+    _use(self.iface)
     FakeSocket.current = Script(lambda written: (b'', []), None)
-    self.sink = _make_sink(sock_kind)
-    self.faults = []
-    self.sink.next_sink.on_faulted.Subscribe(lambda v: self.faults.append(type(v).__name__))
-    self.sink.next_sink.Open().get(timeout=5)
+    self.faults = {}
+    self.fakes = []
+    if connections == 1:
+      self.sink = _make_sink(sock_kind)
+      self.transports = [self.sink.next_sink]
+    else:
+      prov = _transport_provider(sock_kind)
+      self.transports = [prov.CreateSink(_sink_props()) for _ in range(connections)]
+      ser = _S['ThriftSerializerSink'].Builder()
+      ser.next_provider = Router(self.transports)
+      self.sink = ser.CreateSink(_sink_props())
+    for k, t in enumerate(self.transports):
+      self.faults[k] = []
+      t.on_faulted.Subscribe(lambda v, k=k: self.faults[k].append(type(v).__name__))
+      t.Open().get(timeout=5)
+      self.fakes.append(FakeSocket.created[-1])
+    self.Event = gevent.event.Event
+    self.started = 0
 
   def close(self):
-    try:
-      self.sink.next_sink.Close()
-    except Exception:
-      pass
+    for t in self.transports:
+      try:
+        t.Close()
+      except Exception:
+        pass
 
-  def call(self, case, ch):
+  def start(self, case, ch, gated=False):
+    """Dispatches one call; returns the state needed by finish()."""
     S = _S
     import random
+    _use(self.iface)
+    iface = self.iface
     method = case['method']
     record = {}
+    k = self.started if len(self.transports) > 1 else 0
+    self.started += 1
 
     def responder(written):
+      _use(iface)
       payload = serve(case, written, record)
       record['reply_payload_len'] = len(payload)
       if _result_cls(method) is None and not payload:
@@ -790,23 +976,34 @@ class Session(object):
       record['frame_len'] = flen
       return stream, sizes_for(ch, len(stream), flen)
 
-    script = Script(responder, case.get('send_cap'))
-    FakeSocket.current = script
-    nfaults = len(self.faults)
+    gate = self.Event() if gated else None
+    script = Script(responder, case.get('send_cap'), gate)
+    if len(self.transports) > 1:
+      self.fakes[k]._script = script
+    else:
+      FakeSocket.current = script
+    nfaults = len(self.faults[k])
     aspec = [e for e in _args_spec(method) if e is not None]
     args = tuple(from_json(a, e[1], e[3]) for a, e in zip(case['args'], aspec))
     by = {e[2]: e for e in aspec}
-    kwargs = {k: from_json(v, by[k][1], by[k][3]) for k, v in case['kwargs'].items()}
+    kwargs = {kk: from_json(v, by[kk][1], by[kk][3]) for kk, v in case['kwargs'].items()}
     msg = S['MethodCallMessage'](_iface().Iface, method, args, kwargs)
     deadline = case.get('deadline')
     ar = S['MessageDispatcher'].StaticDispatchMessage(self.sink, None, time.time(), deadline, msg)
+    return dict(ar=ar, script=script, record=record, gate=gate, k=k, nfaults=nfaults, method=method)
+
+  def finish(self, st):
+    _use(self.iface)
+    ar, script, method = st['ar'], st['script'], st['method']
+    if st['gate'] is not None:
+      st['gate'].set()
     ar.wait(timeout=10)
-    run = {'sent': list(b''.join(script.sent)), 'pieces': len(script.sent), 'server': record,
+    run = {'sent': list(b''.join(script.sent)), 'pieces': len(script.sent), 'server': st['record'],
            'stream': list(script.stream or b''), 'sizes': script.sizes or [], 'left': script.left(), 'recvs': script.recvs}
     if not ar.ready():
       run['caller'] = {'hung': True}
       return run
-    faulted = len(self.faults) > nfaults
+    faulted = len(self.faults[st['k']]) > st['nfaults']
     if ar.successful():
       v = ar.value
       rc = _result_cls(method)
@@ -825,9 +1022,12 @@ class Session(object):
       run['caller'] = _describe_exc(method, ar.exception, faulted)
     return run
 
+  def call(self, case, ch):
+    return self.finish(self.start(case, ch))
+
 
 def _one_run(case, ch):
-  ses = Session(case['sock'])
+  ses = Session(case['sock'], case.get('iface'))
   try:
     return ses.call(case, ch)
   finally:
@@ -835,27 +1035,71 @@ def _one_run(case, ch):
 
 
 def _call_case(case, op):
-  """The i-th call of a sequence as a stand-alone rpc case (same shape the single-call code works on)."""
+  """One call of a sequence / of a set of overlapping calls as a stand-alone rpc case."""
   c = dict(op)
-  c.update(kind='rpc', sock=case['sock'], ops=[op['ch']])
+  c.update(kind='rpc', sock=case['sock'], ops=[op['ch']], iface=op.get('iface') or 'c14svc')
   return c
+
+
+def _calls(case):
+  """The call operations of a seq / overlap case, in the order they are issued."""
+  return [op for op in _ops(case) if op.get('op', 'call') == 'call']
+
+
+def _ops(case):
+  """'ops' is what the runner's shrinker minimises; cases that must stay whole to be self-contained in a fresh process
+  (two interfaces: the first call of a pair is what the second one depends on) carry their calls under 'calls'."""
+  return case['ops'] if 'ops' in case else case['calls']
 
 
 def run_impl(case):
   setup()
+  _use(case.get('iface'))
   if case['kind'] == 'timeout':
     c = dict(case, args=[], kwargs={}, handler={'do': 'none'}, deadline=time.time() - 1.0)
     return {'runs': [_one_run(c, {'k': 'whole', 'seed': 0})]}
   if case['kind'] == 'seq':
-    # several calls through ONE sink chain instance and one connection, in order
-    ses = Session(case['sock'])
+    # several calls, in order, through ONE sink chain instance (and one connection) per interface
+    sessions = {}
     runs = []
     try:
-      for op in case['ops']:
-        runs.append(ses.call(_call_case(case, op), op['ch']))
+      for op in _ops(case):
+        name = op.get('iface') or 'c14svc'
+        if name not in sessions:
+          sessions[name] = Session(case['sock'], name)
+        runs.append(sessions[name].call(_call_case(case, op), op['ch']))
     finally:
-      ses.close()
+      for ses in sessions.values():
+        ses.close()
     return {'runs': runs}
+  if case['kind'] == 'overlap':
+    # calls in flight at the same time through ONE serializer sink, each on its own connection; a 'reply' operation
+    # lets the peer of that call answer (replies not released by the end are released in call order)
+    gevent = _S['gevent']
+    calls = _calls(case)
+    ses = Session(case['sock'], None, connections=max(2, len(calls)))
+    states = {}
+    runs = {}
+    try:
+      for op in case['ops']:
+        if op.get('op', 'call') == 'call':
+          st = ses.start(_call_case(case, op), op['ch'], gated=True)
+          states[op['id']] = st
+          for _ in range(50):                 # let the call be serialized and written; it then waits for its reply
+            gevent.sleep(0)
+            if st['script'].sent or st['ar'].ready():
+              break
+          gevent.sleep(0)
+        elif op['id'] in states and op['id'] not in runs:
+          runs[op['id']] = ses.finish(states[op['id']])
+      for op in calls:
+        if op['id'] not in runs:
+          runs[op['id']] = ses.finish(states[op['id']])
+    finally:
+      for st in states.values():
+        st['gate'].set()
+      ses.close()
+    return {'runs': [runs[op['id']] for op in calls]}
   runs = []
   for i, ch in enumerate(case['ops']):
     runs.append(_one_run(case, ch))
@@ -920,17 +1164,26 @@ def _library_client_outcome(method, payload):
 
 
 def monitor(case, obs):
-  if case['kind'] == 'seq':
-    # every call of the sequence must satisfy the property on its own, whatever went through the sink before it
+  if case['kind'] in ('seq', 'overlap'):
+    # every call must satisfy the property on its own, whatever else went / is going through the same sink:
+    # its frame decodes to its method and arguments, its reply gives what the Processor produced for THAT call
     v = []
-    for i, (op, run) in enumerate(zip(case['ops'], obs['runs'])):
-      prev = ', '.join('%s(%d B)' % (o['method'], len(r['sent'])) for o, r in zip(case['ops'][:i], obs['runs'][:i]))
+    calls = _calls(case)
+    for i, (op, run) in enumerate(zip(calls, obs['runs'])):
+      if case['kind'] == 'seq':
+        ctx = 'call #%d of the sequence (%s.%s, %d bytes sent; before it: %s)' % (
+            i, op.get('iface') or 'c14svc', op['method'], len(run['sent']),
+            ', '.join('%s.%s(%d B)' % (o.get('iface') or 'c14svc', o['method'], len(r['sent']))
+                      for o, r in zip(calls[:i], obs['runs'][:i])) or 'nothing')
+      else:
+        ctx = 'call id %s (%s) of overlapping calls through one serializer sink, operation order %s' % (
+            op['id'], op['method'], ' '.join('%s%s' % ('call:' + o['method'] + '#' if o.get('op', 'call') == 'call' else 'reply#', o['id'])
+                                             for o in case['ops']))
       for sig, m in monitor(_call_case(case, op), {'runs': [run]}):
-        v.append((sig, 'call #%d of the sequence (%s, %d bytes sent; before it on the same sink: %s): %s' %
-                  (i, op['method'], len(run['sent']), prev or 'nothing', m)))
+        v.append((sig, '%s: %s' % (ctx, m)))
     return v
   v = []
-  _iface()
+  _use(case.get('iface'))
   method = case['method']
   if case['kind'] == 'timeout':
     c = obs['runs'][0]['caller']
@@ -1128,10 +1381,10 @@ def _caller_term(method, c, eof_ok):
 
 
 def to_coq(case, obs):
-  _iface()
-  if case['kind'] == 'seq':
+  _use(case.get('iface'))
+  if case['kind'] in ('seq', 'overlap'):
     terms = []
-    for op, run in zip(case['ops'], obs['runs']):
+    for op, run in zip(_calls(case), obs['runs']):
       t = to_coq(_call_case(case, op), {'runs': [run]})
       if t is not None:
         terms.append(t)
@@ -1161,13 +1414,13 @@ def to_coq(case, obs):
         left = 0
       runs.append('{| r_sizes := %s; r_caller := %s; r_left := %s |}' %
                   (C.zlist(r['sizes']), _caller_term(method, c, True), C.zlit(left)))
-  return 'CRpc c14svc %s %s %s %s %s %s %s' % (C.bytes_lit(method.encode()), C.blit(_result_cls(method) is not None), args,
+  return 'CRpc %s %s %s %s %s %s %s %s' % (IFACES[case.get('iface') or 'c14svc'][2], C.bytes_lit(method.encode()), C.blit(_result_cls(method) is not None), args,
                                               C.opt(C.bytes_lit(sent)) if sent else 'None',
                                               C.blit(case['sock'] == 'varz'), C.bytes_lit(stream), C.lst(runs))
 
 
 def nontrivial(case, obs):
-  if case['kind'] not in ('rpc', 'seq'):
+  if case['kind'] not in ('rpc', 'seq', 'overlap'):
     return False
   return any(r['sent'] and r['stream'] for r in obs['runs'])
 
@@ -1200,10 +1453,16 @@ def stats(cases, obs):
   for c0, o in zip(cases, obs):
     if not isinstance(o, dict) or 'runs' not in o:
       continue
-    if c0.get('kind') == 'seq':
+    if c0.get('kind') == 'overlap':
+      out['overlap_cases'] = out.get('overlap_cases', 0) + 1
+      out['overlap_calls'] = out.get('overlap_calls', 0) + len(o['runs'])
+      units = [(_call_case(c0, op), [op['ch']], [r]) for op, r in zip(_calls(c0), o['runs'])]
+    elif c0.get('kind') == 'seq':
       out['sequences'] += 1
-      bump(out['sequence_lengths'], len(c0['ops']))
-      units = [(_call_case(c0, op), [op['ch']], [r]) for op, r in zip(c0['ops'], o['runs'])]
+      bump(out['sequence_lengths'], len(_ops(c0)))
+      if len(set(op.get('iface') or 'c14svc' for op in _ops(c0))) > 1:
+        out['two_interface_sequences'] = out.get('two_interface_sequences', 0) + 1
+      units = [(_call_case(c0, op), [op['ch']], [r]) for op, r in zip(_ops(c0), o['runs'])]
       prev = None
       for r in o['runs']:
         n = len(r['sent'])
@@ -1216,7 +1475,7 @@ def stats(cases, obs):
     else:
       units = [(c0, c0.get('ops', [{'k': 'timeout'}]), o['runs'])]
     for c, chs, runs in units:
-      bump(out['methods'], c.get('method'))
+      bump(out['methods'], (c.get('iface') or 'c14svc') + '.' + str(c.get('method')))
       bump(out['mangles'], c.get('mangle'))
       bump(out['sockets'], c.get('sock'))
       if c.get('send_cap') and c.get('sock') == 'scales':
